@@ -326,13 +326,16 @@ def nostd_run(ctx, kind, n):
 
 
 def real_clock_run(ctx):
-    """Smoke run of the PRODUCTION configuration (guard off, real std::time::Instant): histories whose
-    reports do not depend on how much time passes - timeout 0 (every poll is late) and timeouts that no
-    run outlives (Duration::MAX, 2^40 .. 2^63 s: no poll is ever late; `deadline = now + timeout` style
-    arithmetic overflows there)."""
+    """Run of the PRODUCTION configuration (guard off, real std::time::Instant): histories whose reports do
+    not depend on how much time passes - timeout 0 (every poll is late) and timeouts that no run outlives
+    (Duration::MAX, 2^40 .. 2^63 s: no poll is ever late; `deadline = now + timeout` style arithmetic
+    overflows there) - and histories with finite timeouts in which real time can only confirm what the
+    script declares (real sleeps before late polls; a 10-minute timeout for early ones)."""
     from common import exec_script
     rows = gen.random_poll(ctx.rng, ctx.q(6000, 60000), timeouts=[0, -1, -1, -2], first_id=900, seg=400)
     rows = [r for r in rows if r["op"] != "tick"]
+    # finite timeouts against the real clock: outcomes that real time can only confirm (see gen.real_time_script)
+    rows += gen.real_time_script(ctx.rng, ctx.q(120, 600), ctx.q(3000, 30000))
     script = ctx.work.fresh("script_real-clock_", "ndjson")
     write_ndjson(script, rows)
     exec_script(script, script + ".trace", config="nohook")
